@@ -122,7 +122,7 @@ fn docs_of(a: &ast::Aidl) -> Vec<(String, Option<String>)> {
     v
 }
 
-pub const SITUATIONS: [&str; 9] = [
+pub const SITUATIONS: [&str; 10] = [
     "none",
     "ordinary block comment only",
     "ordinary line comment only",
@@ -132,6 +132,7 @@ pub const SITUATIONS: [&str; 9] = [
     "doc comment, then a space instead of a line break",
     "doc comment on the previous sibling, same line",
     "doc comment on the previous sibling, previous line",
+    "doc comments on this construct and on its previous sibling",
 ];
 
 /// Build the source text: base layout = one statement per line; `pre` is put in front of token
@@ -217,6 +218,14 @@ impl Gen {
                 inserts.push((pat, format!("{doc}{after}")));
                 expect.push((ppath, Some(shape.expected())));
                 expect.push(me(None));
+            }
+            9 => {
+                // both this construct and its previous sibling carry their own doc comment
+                let (pat, ppath) = prev.clone()?;
+                inserts.push((pat, format!("{}{eol}  ", other.render(Style::Starred, eol, "  "))));
+                inserts.push((*at, format!("{doc}{eol}  ")));
+                expect.push((ppath, Some(other.expected())));
+                expect.push(me(Some(shape.expected())));
             }
             _ => return None,
         }
@@ -340,7 +349,7 @@ pub fn run(tier: Tier, seed: u64) -> i32 {
     let all = SITUATIONS.iter().all(|s| stats.outcome_count(&format!("situation:{s}")) > 0);
     finish(
         &stats,
-        "every documentable construct (interface / parcelable / enum item, annotated and plain methods, arguments, constants, fields, enum elements) x 9 situations (none, ordinary comments only, doc comment, doc comment followed by ordinary comments, two doc comments, doc comment before annotations, doc comment belonging to the previous sibling on the same / previous line) x doc shapes (paragraphs x lines x words over ASCII, accented, CJK, emoji; tag clauses; empty doc) x 4 rendering styles x LF / CRLF; the doc field of every documentable construct of the tree is compared with the expected string (None for all constructs the comment does not directly precede); distinct_nontrivial counts distinct source texts",
+        "every documentable construct (interface / parcelable / enum item, annotated and plain methods, arguments, constants, fields, enum elements) x 10 situations (none, ordinary comments only, doc comment, doc comment followed by ordinary comments, two doc comments, doc comment before annotations, doc comment belonging to the previous sibling on the same / previous line) x doc shapes (paragraphs x lines x words over ASCII, accented, CJK, emoji; tag clauses; empty doc) x 4 rendering styles x LF / CRLF; the doc field of every documentable construct of the tree is compared with the expected string (None for all constructs the comment does not directly precede); distinct_nontrivial counts distinct source texts",
         &["expected string: lines of a paragraph joined by one space, paragraphs and tag clauses joined by LF, words byte-identical; the statement's restrictions on comment content are the space's restrictions"],
         &|c| check_case(c).to_result(),
         &[("every situation occurs", all)],
